@@ -88,9 +88,36 @@ def check_outlines_once(ctx, res, case, out, fmt):
                         t = (a, b, c, d, comp.x, comp.y)
                     leaves.append(render.Leaf(path, t))
             else:
+                # a simple glyph (ufo2ft decomposed the components): the claim is about CONTOURS — every source contour is
+                # there exactly once at its placed position, and nothing else
                 path = pathops.Path()
                 gs[g].draw(path.getPen(glyphSet=gs))
-                leaves.append(render.Leaf(path, render.IDENT))
+                o = place((0.0, 0.0))
+                ex, ey = place((1.0, 0.0)), place((0.0, 1.0))
+                aff = (ex[0] - o[0], ex[1] - o[1], ey[0] - o[0], ey[1] - o[1], o[0], o[1])
+                want = []
+                for lf in src.leaves:
+                    m = render.mul(aff, lf.ctm)
+                    for c in lf.path.contours:
+                        b = c.transform(*m).bounds
+                        if b[2] - b[0] > 0 or b[3] - b[1] > 0:
+                            want.append(b)
+                got = [c.bounds for c in path.contours]
+                res.stat("glyf:simple-glyph-contours", len(got))
+                tolb = 1.5 + 0.002 * cfg.upem
+                rem = list(got)
+                missing = []
+                for wb in want:
+                    hit = next((gb for gb in rem if all(abs(x - y) <= tolb for x, y in zip(wb, gb))), None)
+                    if hit is None:
+                        missing.append([round(v, 1) for v in wb])
+                    else:
+                        rem.remove(hit)
+                if missing or rem:
+                    res.add_cex(f"glyf (decomposed): {len(missing)} source contours have no contour at their placed position, {len(rem)} contours "
+                                "of the glyph correspond to no source contour", {"case": case, "glyph": g, "missing": missing[:4],
+                                "extra": [[round(v, 1) for v in b] for b in rem[:4]]}, {"site": "c03-contours", "case": case["id"], "glyph": i})
+                continue
             out_fns = [lf.inside for lf in leaves]
             label = "glyf"
         else:
